@@ -29,7 +29,8 @@ RULE = (
     "annotated fields with plain / field(default|default_factory|init|kw_only|repr) values, InitVar, ClassVar (subscripted and bare), "
     "KW_ONLY marker, un-annotated attributes, properties, methods, hand-written __init__; decorator forms @dataclass / @dataclass() / "
     "@dataclass(init=, kw_only=, other flag); 4 import forms; PEP 563 on/off; names from a pool of 5 so that overrides are common. "
-    "One case in seven is a diamond of four dataclasses (C0 <- C1, C0 <- C2, C3(C2, C1)); two in seven are a history: two variants of a same-named module loaded one after the other (separate loaders and collections) "
+    "Two cases in eight spread the classes over a package (__init__, m1, m2; imports package->submodule, submodule->package, "
+    "submodule->sibling, relative or absolute; never cyclic). One case in eight is a diamond of four dataclasses (C0 <- C1, C0 <- C2, C3(C2, C1)); two in eight are a history: two variants of a same-named module loaded one after the other (separate loaders and collections) "
     "through ONE griffe.load_extensions() result, each judged against CPython. "
     "Only modules CPython accepts are evaluated. non-trivial = a dataclass at depth >=2 overriding an inherited field, or keyword-only "
     "interplay (flag / marker / field(kw_only)) in a dataclass with >=2 constructor fields; distinct = distinct module source"
@@ -128,6 +129,8 @@ def evaluate(case: dict, workdir: Path) -> tuple[list[Fail], str | None]:
     try:
         if case.get("kind") == "dc":
             return evaluate_module(case, d, name, None, 0)
+        if case.get("kind") == "dcpkg":
+            return evaluate_package(case, d, name)
         extensions = call("total", griffe.load_extensions, what="griffe.load_extensions()")
         fails: list[Fail] = []
         for k, sub in enumerate((case["first"], case["second"]), 1):
@@ -159,11 +162,26 @@ def evaluate_module(case: dict, d: Path, name: str, extensions, load_no: int) ->
             raise HarnessError(f"generated module fails in CPython with {exc!r}\n{code}") from exc
         kwargs = {} if extensions is None else {"extensions": extensions}
         gmod = call("total", griffe.load, name, search_paths=[str(d)], allow_inspection=False, what="griffe.load", **kwargs)
+        fails = judge(case, lambda i: pymod, lambda i: gmod, code)
+        if load_no:
+            for f in fails:
+                f.kind += suffix
+                f.message = f"[load #{load_no} of 2 through one load_extensions() result] " + f.message
+                f.detail = {**(f.detail or {}), "load": load_no}
+        return fails, None
+    finally:
+        sys.path_importer_cache.pop(str(d), None)
+
+
+def judge(case: dict, py_of, g_of, code: str) -> list[Fail]:
+    """The clauses for every class of a "dc" model; py_of(i) / g_of(i) give the CPython module / Griffe module holding C<i>."""
+    if True:
         fails: list[Fail] = []
         for i, cls in enumerate(case["classes"]):
             cname = f"C{i}"
-            pycls = getattr(pymod, cname)
-            gcls = gmod.members.get(cname)
+            pycls = getattr(py_of(i), cname)
+            gmod = g_of(i)
+            gcls = gmod.members.get(cname) if gmod is not None else None
             if gcls is None or getattr(gcls.kind, "value", "") != "class":
                 fails.append(Fail("total", "class-missing", f"{cname} is not a class member: {gcls!r}\n{code}"))
                 continue
@@ -216,14 +234,47 @@ def evaluate_module(case: dict, d: Path, name: str, extensions, load_no: int) ->
                         {"cls": i, "want": [list(p) for p in want], "got": [list(p) for p in got]},
                     )
                 )
-        if load_no:
-            for f in fails:
-                f.kind += suffix
-                f.message = f"[load #{load_no} of 2 through one load_extensions() result] " + f.message
-                f.detail = {**(f.detail or {}), "load": load_no}
+        return fails
+
+
+def evaluate_package(case: dict, d: Path, pkg: str) -> tuple[list[Fail], str | None]:
+    """The classes of case["dc"] spread over the modules of a package: CPython imports every module, Griffe loads the package."""
+    import importlib
+
+    import griffe
+
+    sources = G.render_package(case, pkg)
+    code = "\n".join(f"# ---- {pkg}/{m}.py\n{src}" for m, src in sources.items())
+    (d / pkg).mkdir(parents=True)
+    for m, src in sources.items():
+        (d / pkg / f"{m}.py").write_text(src)
+    sys.path.insert(0, str(d))
+    try:
+        importlib.invalidate_caches()
+        pymods = {}
+        try:
+            for m in sources:
+                pymods[m] = importlib.import_module(pkg if m == "__init__" else f"{pkg}.{m}")
+        except (TypeError, ValueError, AttributeError) as exc:
+            return [], f"{type(exc).__name__}: {exc}"
+        except Exception as exc:  # noqa: BLE001
+            raise HarnessError(f"generated package fails in CPython with {exc!r}\n{code}") from exc
+        gpkg = call("total", griffe.load, pkg, search_paths=[str(d)], allow_inspection=False, what="griffe.load")
+
+        def g_of(i: int):
+            m = G.package_module_of(case, i)
+            return gpkg if m == "__init__" else gpkg.members.get(m)
+
+        fails = judge(case["dc"], lambda i: pymods[G.package_module_of(case, i)], g_of, code)
+        for f in fails:
+            f.kind += "@package"
         return fails, None
     finally:
-        sys.path_importer_cache.pop(str(d), None)
+        sys.path.remove(str(d))
+        for name in [n for n in sys.modules if n == pkg or n.startswith(pkg + ".")]:
+            del sys.modules[name]
+        for key in [k for k in sys.path_importer_cache if k.startswith(str(d))]:
+            del sys.path_importer_cache[key]
 
 
 def classify(want, got, py_own: bool) -> str:
@@ -246,7 +297,7 @@ def check_case(case) -> list[Fail]:
 
 
 def check_case_ex(case) -> tuple[list[Fail], str | None]:
-    if case.get("kind") not in ("dc", "dc2"):
+    if case.get("kind") not in ("dc", "dc2", "dcpkg"):
         raise HarnessError(f"unknown case kind {case.get('kind')!r}")
     if _TMP_BASE is not None:
         return evaluate(case, _TMP_BASE)
@@ -274,6 +325,8 @@ def _is_inherited_class_attribute_default(case, fail: Fail) -> bool:
         return False
     if case.get("kind") == "dc2":
         case = case["first"] if fail.detail.get("load") == 1 else case["second"]
+    elif case.get("kind") == "dcpkg":
+        case = case["dc"]
     classes = case["classes"]
     # the class whose constructor is presented, or the ancestor it is inherited from: any decorated class of the module
     culprits = {classes[i]["body"][k]["n"] for i, k in G.inherited_value_fields(case)}
@@ -290,7 +343,8 @@ def _cases(ctx):
     small = G.cases(max_classes=3, avoid_inherited_value=SLUG_INHERITED in ctx.known)
     two = st.builds(lambda a, b: {"kind": "dc2", "first": a, "second": b}, small, small)
     diamond = G.diamond_cases(avoid_inherited_value=SLUG_INHERITED in ctx.known)
-    return st.one_of(one, one, one, one, two, two, diamond)
+    package = G.package_cases(avoid_inherited_value=SLUG_INHERITED in ctx.known)
+    return st.one_of(one, one, one, two, two, diamond, package, package)
 
 
 def strategy(ctx):
@@ -321,6 +375,19 @@ def run_shard(ctx) -> None:
             codes = [G.render(case["first"]), G.render(case["second"])]
             labels = sorted(set(l1) | set(l2)) + ["history:two-loads-one-extensions-object"]
             return (codes if (nt1 or nt2) else None), ["accepted", *labels], {"first load": codes[0], "second load": codes[1]}
+        if case["kind"] == "dcpkg":
+            if case["dc"].get("steered"):
+                ctx.excluded(SLUG_INHERITED, case["dc"]["steered"])
+            nt, labels = G.stats(case["dc"])
+            mods = [G.package_module_of(case, i) for i in range(len(case["dc"]["classes"]))]
+            labels = [*labels, f"package:modules-used={len(set(mods))}"]
+            for i, cls in enumerate(case["dc"]["classes"]):
+                for b in cls["bases"]:
+                    if mods[b] != mods[i]:
+                        labels.append("package:base-in-" + ("package-init" if mods[b] == "__init__" else "submodule") + "-of-" + ("package-init" if mods[i] == "__init__" else "submodule"))
+                        nt = True
+            sources = G.render_package(case, "pkg")
+            return (sources if nt else None), ["accepted", *sorted(set(labels))], {"package": sources}
         if case.get("steered"):
             ctx.excluded(SLUG_INHERITED, case["steered"])
         nt, labels = G.stats(case)
